@@ -383,6 +383,36 @@ struct TC8 {
 #endif
 };
 
+// narrow keys without payload (1 and 2 bytes): code that depends on sizeof(T) (thresholds counted in elements per cache line, ...)
+struct K1 {
+  uint8_t k;
+  K1() = default;
+  K1(int key, unsigned) : k(static_cast<uint8_t>(key)) {}
+  bool operator==(const K1 &o) const { return k == o.k; }
+  bool operator!=(const K1 &o) const { return k != o.k; }
+  bool operator<(const K1 &o) const { return k < o.k; }
+  bool operator>(const K1 &o) const { return k > o.k; }
+  bool operator<=(const K1 &o) const { return k <= o.k; }
+  bool operator>=(const K1 &o) const { return k >= o.k; }
+#if __cplusplus >= 202002L
+  std::strong_ordering operator<=>(const K1 &o) const { return k <=> o.k; }
+#endif
+};
+struct K2 {
+  int16_t k;
+  K2() = default;
+  K2(int key, unsigned) : k(static_cast<int16_t>(key)) {}
+  bool operator==(const K2 &o) const { return k == o.k; }
+  bool operator!=(const K2 &o) const { return k != o.k; }
+  bool operator<(const K2 &o) const { return k < o.k; }
+  bool operator>(const K2 &o) const { return k > o.k; }
+  bool operator<=(const K2 &o) const { return k <= o.k; }
+  bool operator>=(const K2 &o) const { return k >= o.k; }
+#if __cplusplus >= 202002L
+  std::strong_ordering operator<=>(const K2 &o) const { return k <=> o.k; }
+#endif
+};
+
 // ---------------------------------------------------------------- uniform access
 template <class E>
 struct EI;
@@ -429,6 +459,23 @@ struct EI<TC8> {
   static const char *name() { return "TC8"; }
   static Val val(const E &e) { return Val(e.key, e.pay); }
   static Val norm(Val v) { return v; }
+};
+
+template <>
+struct EI<K1> {
+  typedef K1 E;
+  static const bool kTracked = false, kRelocatable = true, kCopyable = true;
+  static const char *name() { return "K1"; }
+  static Val val(const E &e) { return Val(e.k, 0); }
+  static Val norm(Val v) { return Val(v.key & 255, 0); }
+};
+template <>
+struct EI<K2> {
+  typedef K2 E;
+  static const bool kTracked = false, kRelocatable = true, kCopyable = true;
+  static const char *name() { return "K2"; }
+  static Val val(const E &e) { return Val(e.k, 0); }
+  static Val norm(Val v) { return Val(static_cast<int16_t>(v.key), 0); }
 };
 
 // raw arithmetic elements (the library may special-case std::is_arithmetic / is_trivial types)
